@@ -63,6 +63,12 @@ CLAIMED['C20'] = dict(
     text='Partial by design: portable variant - the word loop consumes sizeof(uintmax_t) bytes per iteration and returns on a non-zero word; for every remainder 1..7 the fall-through path reads exactly bytes [0,k) at the cursor and ORs each into the result that decides the return value. Asm variants (sse/avx/avx2/avx512) - store-free, loads only through the buffer argument, every ptest/vptest/cmp consumed, return value is a 0/non-zero constant or flag. NOT decided: the vector variants\' accumulate and overlapped/masked tail arithmetic, and bounds.',
     note='Trusts clang AST, nasm/objdump decoding, ASMFLOW.')
 
+CLAIMED['C15'] = dict(
+    category='proof', design_ref='DESIGN.md section 3, C15',
+    technique='static analysis: whole-program write-effect analysis - pointer-provenance over the linked LLVM IR of all C units (every store/memcpy/memset destination traced to its root) and over the CFG of every assembled kernel; path-enumerating interpretation of the dispatch resolvers; field def/use comparison of init vs reset',
+    text='Decides the no-shared-mutable-state clause completely for the current tree: every write site of all 278 C functions and every store of all 138 asm kernels is traced to its provenance root, and none is a library-owned global (function-local statics included), a RIP-relative/absolute address, TLS, or a pointer loaded from stream->hufftables (the only escaping globals); the 42 dispatch resolvers each perform exactly one 8-byte store of a CPUID/XGETBV-determined library function address into their own slot, which is 8-byte aligned in the shared object linked from the current tree, restore every register, and mbinit falls through into the interface stub; external callees are a fixed reentrant libc set (no allocation, I/O, time, locale, getenv), no inline asm, no indirect calls; isal_deflate_reset / isal_inflate_reset assign every byte the matching init assigns except the documented user fields. The obligation set is finite and enumerated completely (proof level for these clauses). NOT decided: independence from prior contents of level_buf / internal arrays / output buffer.',
+    note='Trusts clang IR + sroa, tools/llir.py (unknown provenance is never assumed local), nasm/objdump decoding, ASMFLOW and FACTS interpreters. Object-level .data alignment of the multibinary units is 4; slot alignment is checked on the link layout.')
+
 NOT_APPLICABLE = {
     'C07': 'quantifies over call histories and buffer schedules; resumption correctness depends on run-time counts carried in state, no structural clause beyond the state-enum mirror already checked under C01',
     'C09': 'algebraic property of run-time matrices (invertibility, products over GF(2^8)); nothing in the shape of the code decides it, and loop summarisation over symbolic (m,k) is out of reach of the analyses used',
